@@ -16,6 +16,8 @@ os.makedirs(dst, exist_ok=True)
 for f in glob.glob(os.path.join(src, '*')):
     if os.path.isfile(f):
         shutil.copy(f, dst)
+    elif os.path.isdir(f) and os.path.basename(f) not in ('__pycache__', 'build', 'out'):
+        shutil.copytree(f, os.path.join(dst, os.path.basename(f)), dirs_exist_ok=True)
 demo = next((f for f in ('demo.py', 'demo.sh') if os.path.exists(os.path.join(dst, f))), None)
 
 
